@@ -4,6 +4,9 @@ CONSTANTS
   SkipTruth = TRUE
   MaxRuns = 2
   BySpelling = TRUE
+  Twin = FALSE
+  Rich = TRUE
+  SkipKind = FALSE
 INVARIANT Agreement
 INVARIANT TruthUntouched
 INVARIANT ReportTruthful
